@@ -168,8 +168,11 @@ def _last_field(p):
 
 
 def aggregates(body, adt_pred, variant=None):
-    """assignments constructing adt (optionally a given variant): (bi, si, stmt)"""
+    """assignments constructing adt (optionally a given variant): (bi, si, stmt).
+    A derived/implemented Clone::clone of the type itself re-creates a value that already exists: not a construction."""
     out = []
+    if body.name.endswith("std::clone::Clone>::clone"):
+        return out
     for bi, si, s in body.assigns():
         rv = s["rv"]
         if rv["r"] == "agg" and rv.get("ak") == "adt" and adt_pred(rv["adt"]):
